@@ -1,23 +1,22 @@
-SPECIFICATION RFairSpec
+SPECIFICATION RSpec
 CONSTANTS
-  L = 4
+  L = 2
   FixPred = TRUE
   FixLeave = TRUE
   FixWrap = TRUE
   FixDead = TRUE
-  MaxTry = 3
+  MaxTry = 2
   TrackCov = FALSE
   Goal = "none"
-  MCLayout <- LayR4
-  InitMembers = {1, 3, 4}
-  Joiners = {2}
-  Leavers = {3}
+  MCLayout <- LayR5
+  InitMembers = {1, 2, 3, 4, 5}
+  Joiners = {}
+  Leavers = {2, 3, 4}
   MaxOps = 0
   Faults = FALSE
   OpKinds = {}
   MaxMembers = 0
-  B = 3
+  B = 4
   FixSelf = TRUE
-INVARIANTS InvTerminates InvLookupCorrect
-PROPERTY Converges
+INVARIANTS InvNoDeadEnd
 CHECK_DEADLOCK FALSE
